@@ -233,7 +233,9 @@ func c06Combiners(c *Ctx, p *Prog) {
 		for _, o := range outs {
 			var m2nil, x, accNil *bool
 			unknown := ""
-			for k, v := range o.Assign {
+			for _, k := range o.AtomKeys() {
+				v := o.Assign[k]
+				_ = v
 				s := o.AtomSyms[k]
 				vv := v
 				switch {
@@ -352,7 +354,9 @@ func c06Combiners(c *Ctx, p *Prog) {
 		}
 		for _, o := range outs {
 			var mnil *bool
-			for k, v := range o.Assign {
+			for _, k := range o.AtomKeys() {
+				v := o.Assign[k]
+				_ = v
 				s := o.AtomSyms[k]
 				vv := v
 				if s.Op == "binop" && s.Tok == token.EQL && s.Args[1].isConst() && s.Args[1].IsNil {
@@ -1079,7 +1083,9 @@ func c06Apply(c *Ctx, p *Prog) {
 	for _, o := range outs {
 		var test *bool
 		var testArg *Sym
-		for k, v := range o.Assign {
+		for _, k := range o.AtomKeys() {
+			v := o.Assign[k]
+			_ = v
 			s := o.AtomSyms[k]
 			if s.Op == "call" && strings.Contains(s.Name, "Test") {
 				vv := v
@@ -1469,7 +1475,9 @@ func c06Leaf(c *Ctx, p *Prog) {
 			n++
 			hasRe := "?"
 			other := ""
-			for k, v := range o.Assign {
+			for _, k := range o.AtomKeys() {
+				v := o.Assign[k]
+				_ = v
 				s := o.AtomSyms[k]
 				if s.Op == "binop" && (s.Tok == token.EQL || s.Tok == token.NEQ) && strings.Contains(s.Args[0].String(), ".Regexp") && s.Args[1].isConst() && s.Args[1].IsNil {
 					hasRe = fmt.Sprint(v == (s.Tok == token.NEQ))
@@ -1547,7 +1555,9 @@ func c06ApplyAppend(c *Ctx, p *Prog, fn *ssa.Function, lp *loopInfo, iPhi *ssa.P
 		}
 		var test *bool
 		var testArg *Sym
-		for k, v := range o.Assign {
+		for _, k := range o.AtomKeys() {
+			v := o.Assign[k]
+			_ = v
 			if s := o.AtomSyms[k]; s.Op == "call" && strings.Contains(s.Name, "Test") {
 				vv := v
 				test = &vv
